@@ -136,6 +136,17 @@ fn run_mpsc(case: &Value) -> Value {
                     json!({"w": drain(&log)})
                 }
             }
+            "k" => {
+                // close_this_sender of a finished task (no outstanding future holds the Rc)
+                let t = &mut tasks[l[1].as_u64().unwrap() as usize];
+                match t.sender.as_mut().and_then(Rc::get_mut) {
+                    Some(s) => {
+                        s.close_this_sender();
+                        json!({"w": drain(&log)})
+                    }
+                    None => json!({"dis": true}),
+                }
+            }
             "c" => match rx.as_mut() {
                 None => json!({"dis": true}),
                 Some(r) => {
